@@ -1,3 +1,81 @@
-/-  C02/Theorems — the ledger for property C02 (every theorem here is audited).  Placeholder. -/
+/-
+  C02/Theorems — ledger for property C02.
+-/
+import OttoVerif.C02.Model
+import OttoVerif.C02.GenFacts
+import OttoVerif.C18.Theorems
 namespace OttoVerif.C02.Thm
+open OttoVerif.C02
+
+/-- C02.api_total: every payload kind the interpreter raises for JavaScript-level errors (throw
+    statements, TypeError/RangeError/ReferenceError/SyntaxError raised by built-ins and the evaluator)
+    is converted into a returned error by every public entry point that runs under catchPanic. -/
+theorem api_total (p : Payload) (h : jsRaised p = true) : catchPanic p = .returnsError := by
+  cases p with
+  | exceptionOf q => cases q <;> simp_all [jsRaised, catchPanic, eject]
+  | errorPtr => rfl
+  | ottoError => rfl
+  | jsValue b => rfl
+  | goError => simp [jsRaised] at h
+  | goString => simp [jsRaised] at h
+  | other => simp [jsRaised] at h
+
+/-- exact characterisation: a panic escapes the public API iff, after one unwrapping, it is a Go
+    error (which includes every Go run-time error), a string, or a foreign value -/
+theorem catchPanic_repanics_iff (p : Payload) :
+    catchPanic p = .repanics ↔
+      (eject p = .goError ∨ eject p = .goString ∨ eject p = .other ∨ ∃ q, eject p = .exceptionOf q) := by
+  cases p with
+  | exceptionOf q => cases q <;> simp [catchPanic, eject]
+  | errorPtr => simp [catchPanic, eject]
+  | ottoError => simp [catchPanic, eject]
+  | jsValue b => simp [catchPanic, eject]
+  | goError => simp [catchPanic, eject]
+  | goString => simp [catchPanic, eject]
+  | other => simp [catchPanic, eject]
+
+example : catchPanic (.exceptionOf .ottoError) = .returnsError := by decide
+example : catchPanic .goError = .repanics := by decide       -- e.g. a nil dereference inside a built-in
+
+/-- C02.depth_guard = C18.depth_exact: with a stack limit unbounded recursion ends in the
+    (catchable, see api_total) RangeError and never exceeds the limit -/
+theorem depth_guard (limit : Nat) (hl : limit ≠ 0) (d b : Nat) (t : OttoVerif.C18.Stack) :
+    (OttoVerif.C18.runAct limit (OttoVerif.C18.nest d) (b :: t)).2 =
+      (if b + d + 1 < limit then OttoVerif.C18.Outcome.done else OttoVerif.C18.Outcome.rangeError) :=
+  OttoVerif.C18.Thm.depth_exact limit hl d b t
+
+/-! Regenerated facts (go/types over the current sources of package otto) -/
+
+/-- P1: no built-in dereferences the receiver's object without converting or checking it
+    (`call.This.object()` is nil for a primitive receiver) -/
+theorem no_raw_receiver_object : Gen.rawReceiverObject = [] := by decide
+
+/-- P2: the constant-index reads of the argument list are exactly the ones known to sit behind a
+    length test (Math.max/min after `case 0/1`, Object.assign after the length check,
+    lastIndexOf after `2 > len`) -/
+theorem const_argument_reads_expected : Gen.constArgumentIndex =
+    [("builtinMathMax", "ArgumentList[0]"), ("builtinMathMax", "ArgumentList[0]"),
+     ("builtinMathMin", "ArgumentList[0]"), ("builtinMathMin", "ArgumentList[0]"),
+     ("builtinObjectAssign", "ArgumentList[0]"),
+     ("builtinStringLastIndexOf", "ArgumentList[1]"), ("builtinStringLastIndexOf", "ArgumentList[1]")] := by decide
+
+/-- P3: explicit panics with a payload Run does not convert are confined to the known
+    internal-invariant sites ("unknown node type", "here be dragons", stash bookkeeping) and to the
+    bridged Go containers (type_go_*.go, a C16 known finding); a new one shows up here -/
+theorem unconverted_panics_expected : Gen.unconvertedPanics =
+    [("New", "error"), ("New", "error"), ("Value.bool", "string"), ("Value.float64", "error"), ("Value.string", "error"),
+     ("Value.toReflectValue", "error"), ("arrayDefineOwnProperty", "string"), ("catchPanic", "interface{}"),
+     ("cloner.property", "error"), ("compiler.parse", "string"), ("compiler.parseExpression", "error"),
+     ("compiler.parseExpression", "string"), ("compiler.parseStatement", "string"), ("dclStash.createBinding", "error"),
+     ("dclStash.getBinding", "error"), ("dclStash.setBinding", "error"), ("getStashProperties", "string"),
+     ("goArrayObject.setValue", "error"), ("goMapObject.toKey", "error"), ("goMapObject.toValue", "error"),
+     ("goSliceObject.setLength", "error"), ("goSliceObject.setValue", "error"), ("objectStash.createBinding", "string"),
+     ("runtime.calculateBinaryExpression", "string"), ("runtime.calculateComparison", "string"),
+     ("runtime.calculateComparison", "string"), ("runtime.calculateComparison", "string"),
+     ("runtime.cmplEvaluateNodeExpression", "string"), ("runtime.cmplEvaluateNodeExpression", "string"),
+     ("runtime.cmplEvaluateNodeObjectLiteral", "string"), ("runtime.cmplEvaluateNodeStatement", "error"),
+     ("runtime.cmplEvaluateNodeStatement", "error"), ("runtime.cmplEvaluateNodeUnaryExpression", "string"),
+     ("runtime.convertCallParameter", "error"), ("sameValue", "string"), ("strictEqualityComparison", "string"),
+     ("stringToReflectValue", "error"), ("testObjectCoercible", "string"), ("toPrimitive", "string")] := by decide
+
 end OttoVerif.C02.Thm
